@@ -146,7 +146,7 @@ func (ex *Exec) fromNative(x interface{}) Value {
 
 // jsonEncodeValue returns the JSON round-trip image of v (fresh structure) or a failure reason.
 func (ex *Exec) jsonEncodeValue(v Value, fr *frame, depth int) (Value, string) {
-	if depth > 12 {
+	if depth > 60 {
 		panic(engineErr("json model: nesting too deep"))
 	}
 	switch x := v.(type) {
